@@ -177,7 +177,7 @@ def _c03_one(a):
 
 
 def run_c03(tier, t0):
-    nh = 300 if tier == "quick" else 4000
+    nh = 700 if tier == "quick" else 6000
     nres = 520 if tier == "quick" else 1560
     exe = build.build_flavour("asan")
     selftest_codec()
